@@ -56,10 +56,18 @@
 //!              `BTreeMap<uN, V>` / `HashMap<uN, V>` as key-sorted association lists (`contains_key get insert remove len
 //!              is_empty`, `entry(k).or_insert_with(|| e)` / `or_insert(e)` as alias of the entry, `remove` as value,
 //!              `for (k, v) in btree.iter()`; HashMap iteration rejected), `Duration` `+ -`, `from_secs`, `from_millis`,
-//!              nested `const`, `Option::expect`
-//!   not supported: `loop`, labelled loops, `break`/`continue` in `for`, closures, generics, traits, signed integers, floats,
-//!              references stored in data, `&mut` parameters other than `self` and the octets cursors,
-//!              `Err` returned from a `&mut self` method after `self` was mutated.
+//!              nested `const`, `Option::expect`;
+//!              `let PAT = e else { diverging }` (the rest of the block is the match arm), `let Some(x) = map.get_mut(&k)
+//!              else {..}` (`x` is an alias of the entry); a struct-variant pattern matched against a `&mut` place
+//!              (`match alias {..}`, `let V {..} = alias else {..}`) binds ALIASES of the variant's fields (read through
+//!              the generated accessor `E.V.f?`, written through `E.V.set_f`); other patterns on a `&mut` place bind
+//!              values and any assignment through them is rejected; `break` / `continue` in `for` loops and loop labels
+//!              (`forRangeExit` / `forEachExit`: the early-exit channel of the body carries a `LoopExit`; a labelled jump
+//!              out of an inner loop is `LoopExit.ret` of the outer loop's `LoopExit`); `for (&k, v) in btree.iter_mut()`
+//!              (a loop over the positions; `v` is an alias of the value of the `i`-th binding)
+//!   not supported: `loop`, valued `break`, closures, generics, traits, signed integers, floats,
+//!              references stored in data, `ref mut`, `&mut` parameters other than `self`, unsigned integers and the
+//!              octets / io cursors.
 
 mod doc;
 mod follow;
